@@ -97,6 +97,8 @@ func (m *Mon) updateLedgers(sc *StepCtx) {
 			continue
 		}
 		switch {
+		case sc.IsRestart() && sc.Res.OK:
+			le.Status = "refunded-at-restart"
 		case si.respond != nil && hexs(si.respond.RequestId) == id:
 			if si.respGood {
 				le.Status = "paid"
@@ -129,6 +131,17 @@ func (m *Mon) updateLedgers(sc *StepCtx) {
 				}
 			}
 		}
+		if op, target, isOp := ctxOpTarget(sc); isOp && target == id && sc.Res.OK {
+			if op == "kill" && !t.Killed {
+				t.Killed, t.KilledIdx = true, sc.Idx
+			}
+			if op == "update" {
+				t.Providers = provHex(rc.Providers)
+			}
+		}
+		if t.Providers == nil {
+			t.Providers = provHex(rc.Providers)
+		}
 		if t.Gone {
 			m.fail(sc, "C09", "no-resurrection", "", "context %.16s reappears after having been removed", id)
 			t.Gone = false
@@ -156,8 +169,16 @@ func (m *Mon) updateLedgers(sc *StepCtx) {
 			t.Batches[rc.BatchCounter] = &BatchInfo{Counter: rc.BatchCounter, StartStep: sc.Idx, StartH: pre.Height, ExpH: pre.Height + prc.Timeout,
 				Threshold: rc.BatchResponseThreshold, Issued: issued, Module: rc.ModuleName}
 		}
+		if sc.IsRestart() {
+			for _, bi := range t.Batches {
+				bi.Closed = true // a batch in flight at the restart is abandoned (its fees were refunded)
+			}
+		}
 		if n := len(t.Advances); n > 0 {
 			a := &t.Advances[n-1]
+			if sc.IsRestart() {
+				a.RunningAll = false
+			}
 			if rc.State != types.RUNNING {
 				a.RunningAll = false
 			}
@@ -186,7 +207,9 @@ func (m *Mon) c10OnAdvance(sc *StepCtx, t *CtxTimeline, prc, rc types.RequestCon
 	if !sc.IsBlock() {
 		kind = "module-service"
 	}
-	if n == 0 {
+	if n == 0 && t.Restarted {
+		m.hit("C10", "first-batch-after-restart", kind)
+	} else if n == 0 {
 		m.hit("C10", "first-batch", fmt.Sprintf("%s/atcall%v/rep%v", kind, adv.H == t.CreatedH, prc.Repeated))
 		if t.CreatedH >= 0 && adv.H != t.CreatedH && t.RunningAtCreateBlockEnd {
 			m.fail(sc, "C10", "first-batch-at-call-height", "late", "context %.16s created at %d and running at that block's end got its first batch at %d", t.ID, t.CreatedH, adv.H)
@@ -207,6 +230,11 @@ func (m *Mon) c10OnAdvance(sc *StepCtx, t *CtxTimeline, prc, rc types.RequestCon
 		}
 	}
 	cnt := n + 1
+	if t.Restarted {
+		// a zero-height restart abandons (and refunds) the batch in flight and keeps every
+		// context, paused: whether the abandoned batch counts is not stated by C10
+		return
+	}
 	if !prc.Repeated {
 		m.hit("C10", "one-shot-single-batch", kind)
 		if cnt > 1 {
@@ -255,3 +283,11 @@ func (m *Mon) finish(r *Run) {
 }
 
 var _ = sdk.ZeroInt
+
+func provHex(ps []sdk.AccAddress) []string {
+	out := make([]string, len(ps))
+	for i, p := range ps {
+		out[i] = hexs(p)
+	}
+	return out
+}
